@@ -431,6 +431,9 @@ TIES = {
     'Routing': dict(props=['C03', 'C15', 'C16'], gen=['SendReport', 'SendOkReport', 'ReporterSend', 'ReporterSendOk', 'TimesAction'],
                     theorems=['send_report_route', 'send_ok_report_route', 'times_action_tie'],
                     cxx='send_report, send_ok_report, reporter<T>::send / sendOk, times::action (mock.hpp)'),
+    'SemMockFunc': dict(gen=['MockFunc', 'Find', 'ReportMismatchFree', 'ReportMismatchMember', 'RunActions'], props=['C01', 'C02'],
+                        theorems=['mock_func_sem'],
+                        cxx='the whole call path: mock_func read with find, report_mismatch and run_actions (mock.hpp), meaning of the composed trace'),
     'Ring': dict(props=['C14'], gen=['RingUnlink', 'RingElemDtor', 'RingMoveAssign', 'RingPushFront', 'RingPushBack', 'RingBegin', 'RingEnd',
                                     'RingIterIncr', 'RingIsLinked', 'RingListDtor'],
                  theorems=['ring_unlink_tie', 'ring_elem_dtor_tie', 'ring_move_assign_tie', 'ring_push_front_tie', 'ring_push_back_tie',
